@@ -158,6 +158,10 @@ func (c *Ctx) reportEvents(r *RuleResult, x *Exec, prefix string) {
 		r.Instances++
 		if e.bad == 0 {
 			r.ok(key, c.pos(e.in.Pos()), fname(fn), fmt.Sprintf("%s holds in all %d abstract contexts", e.kind, e.ok))
+		} else if len(x.gaps) > 0 {
+			// values that passed through an unmodelled construct are unknown: a finding
+			// that may rest on them is not a verdict
+			r.undecided(key, c.pos(e.in.Pos()), fname(fn), fmt.Sprintf("%s; e.g. %s (%d failing / %d passing contexts) — not decided: the interpretation met constructs it has no transfer function for", e.kind, strings.Join(e.detail, " | "), e.bad, e.ok))
 		} else {
 			r.viol(key, c.pos(e.in.Pos()), fname(fn), fmt.Sprintf("%s; e.g. %s (%d failing / %d passing contexts)", e.kind, strings.Join(e.detail, " | "), e.bad, e.ok))
 		}
@@ -518,7 +522,11 @@ func ruleCall(c *Ctx, mode string) *RuleResult {
 			if n > 5 {
 				v.bad = append(v.bad[:5], fmt.Sprintf("… %d more", n-5))
 			}
-			r.viol(key, pos, "CallFunction", fmt.Sprintf("%d of %d abstract calls deviate: %s", n, v.nruns, strings.Join(v.bad, "; ")))
+			if len(x.gaps) > 0 {
+				r.undecided(key, pos, "CallFunction", fmt.Sprintf("%d of %d abstract calls deviate (%s) — not decided: the interpretation met constructs it has no transfer function for", n, v.nruns, strings.Join(v.bad, "; ")))
+			} else {
+				r.viol(key, pos, "CallFunction", fmt.Sprintf("%d of %d abstract calls deviate: %s", n, v.nruns, strings.Join(v.bad, "; ")))
+			}
 		}
 		if x.trunc {
 			agg.trunc = true
